@@ -28,6 +28,8 @@ from .base import FEMSurvey, LargeLoopGroundEMSurvey, MovingLoopGroundEMSurvey
 
 
 class MovingLoopGroundFEMSurvey(FEMSurvey, MovingLoopGroundEMSurvey):
+    __INPUT_TYPE = ["Rx"]
+
     @property
     def default_input_types(self) -> list[str]:
         """Choice of survey creation types."""
